@@ -96,3 +96,43 @@ func eventBus(eventChoices int, withB bool, preemptions int) {
 		verif.Reach("all-events-delivered")
 	}
 }
+
+// H_C20_5_TopicReuse: the sequence EventSystem.eventLoop performs when the last filter of a kind is removed and a
+// new one of the same kind is installed right after: RemoveTopic(name), close(old source), AddTopic(name, new
+// source), Subscribe(name) - while the publisher goroutine of the OLD source is still on its way to its clean-up
+// (closeAllSubscribers(name), delete(topics, name)). A topic whose source is open must stay registered and must
+// not have its subscribers closed.
+func H_C20_5_TopicReuse() {
+	verif.Schedule(1)
+	bus := NewEventBus()
+	src1 := make(chan cmtrpctypes.ResultEvent)
+	verif.Assert("add-topic-succeeds", bus.AddTopic("heads", src1) == nil)
+	// the last filter of this kind goes away
+	bus.RemoveTopic("heads")
+	close(src1)
+	// a new filter of the same kind is installed
+	src2 := make(chan cmtrpctypes.ResultEvent)
+	verif.Assert("re-add-topic-succeeds", bus.AddTopic("heads", src2) == nil)
+	chB, unsubB, err := bus.Subscribe("heads")
+	verif.Assert("subscribe-to-re-added-topic-succeeds", err == nil)
+	closedB := false
+	gotB := 0
+	go func() {
+		for range chB {
+			gotB++
+		}
+		closedB = true
+	}()
+	verif.Quiesce()
+	// the new source is still open: nothing may have shut the new topic down
+	stillRegistered := false
+	for _, t := range bus.Topics() {
+		if t == "heads" {
+			stillRegistered = true
+		}
+	}
+	verif.Assert("live-topic-keeps-its-subscribers", !closedB)
+	verif.Assert("live-topic-stays-registered", stillRegistered)
+	_ = unsubB
+	verif.Reach("re-added")
+}
